@@ -267,8 +267,9 @@ class Verdict:
         status = 0
         replay = None
         if self.violations:
-            os.makedirs(os.path.join(VERIF, 'replay'), exist_ok=True)
-            replay = os.path.join(VERIF, 'replay', '%s-%s-seed%s.json' % (self.prop, self.tier, self.seed))
+            rdir = os.environ.get('VERIF_REPLAY_DIR') or os.path.join(VERIF, 'replay')
+            os.makedirs(rdir, exist_ok=True)
+            replay = os.path.join(rdir, '%s-%s-seed%s.json' % (self.prop, self.tier, self.seed))
             with open(replay, 'w') as f:
                 keep, per = [], {}
                 for v in self.violations:
